@@ -170,6 +170,18 @@ CHECKS = {
                      'negotiation stages are refused; wrong KE group gives INVALID_KE_PAYLOAD with the chosen group; unoffered '
                      'suggested groups are not followed.',
                 note='exhaustive only for the stated universe'),
+    'C12': dict(level='exploration', design='3 C12',
+                technique='exhaustive enumeration of selector pairs and of prefix-length / port conversions against packet-set '
+                          'arithmetic done by the harness; Hypothesis-generated TS lists x policies for the policy lookup (validity '
+                          'predicate); end-to-end configuration variants and requests / responses re-written by a keyed man in the '
+                          'middle, with kernel selectors (decoded with <linux/xfrm.h>) compared to the negotiated selectors as '
+                          'packet sets',
+                text='is_subset == packet-set inclusion on all 324^2 pairs; from_network/get_network/get_port exact for every '
+                     'prefix length; lookup result inside proposal and policy, refusal iff nothing comparable; every kernel '
+                     'selector inside the negotiated TSi x TSr, the offer and the responder policy; rekeys keep selectors; '
+                     'disjoint policies / other mode give TS_UNACCEPTABLE; widened, shifted, swapped, wide-first or mode-flipped '
+                     'responses leave nothing installed.',
+                note='exhaustive only for the stated universe; the larger-or-smaller lookup rule of the code is taken as documented'),
 }
 
 NOT_YET = 'check not built yet in this session (planned, see DESIGN.md section 8)'
